@@ -65,4 +65,14 @@ example : Ghost.ValidBox ⟨[0, 0], [1, 2], "Cell_D_00000", 0⟩ ∧ cellsOf (Gh
   simp at hp
   rcases hp with rfl | rfl <;> decide
 
+/-- **Level iteration over a plotfile written with ghost cells**: however the level's (valid) boxes are spread over the binary
+    files, the chained per-file scans return a permutation of the boxes' *grown* blocks (a finite list) -/
+theorem ghost_cells_level_iteration_perm (nf f g : Nat) (hf : f < nf) (parts : List (List (Entry × Bytes)))
+    (boxes : List (Entry × Bytes)) (hp : boxes.Perm parts.flatten)
+    (hv : ∀ eps ∈ parts, ∀ p ∈ eps, Ghost.ValidBox p.1)
+    (hs : ∀ eps ∈ parts, ∀ p ∈ eps, p.2.length = cellsOf (Ghost.grow g p.1) * nf * 8) :
+    (iterLevel ((parts.map fun eps => eps.map fun p => (Ghost.grow g p.1, p.2)).map (fileOf nf)) f).Perm
+      (boxes.map fun p => block p.2 (cellsOf (Ghost.grow g p.1)) f) :=
+  Ghost.iterLevel_grown_perm nf f g hf parts boxes hp hv hs
+
 end C15
